@@ -250,6 +250,9 @@ func (e *Env) Apply(objs ...client.Object) {
 			if err := e.API.Raw.Create(ctx, o); err != nil {
 				panic(fmt.Sprintf("harness Apply create %T %s: %v", o, o.GetName(), err))
 			}
+			if np, ok := o.(*v1.NodePool); ok {
+				e.ReconcilePool(np.Name)
+			}
 			continue
 		}
 		o.SetResourceVersion(cur.GetResourceVersion())
@@ -271,6 +274,9 @@ func (e *Env) Apply(objs ...client.Object) {
 		}
 		if after := e.API.current(o); after != nil {
 			e.API.bumpGeneration(before, after)
+		}
+		if np, ok := o.(*v1.NodePool); ok {
+			e.ReconcilePool(np.Name)
 		}
 	}
 }
